@@ -24,9 +24,14 @@ later than the one recorded at the end of the last fsmSnapshot / fsmRestore (set
 performs). The second is what protects the window "full snapshot of A captured; load B applied;
 the snapshot of A installed and the flag cleared".
 
+Every SetDueNext(Full) creates a new requirement (`gen` counts them; the FULL_NEEDED file holds a
+token). A full snapshot remembers the requirement in force when it was captured and its
+installation clears only that one.
+
 `lvl` selects the code version: 0 = before `fix:` 6482ad3; 1 = with 6482ad3 (staged WALs dropped by
-the full-snapshot path when present, and by fsmRestore); 2 = with the second `fix:` commit as well
-(the full-snapshot path always keeps a full snapshot required until one is installed).
+the full-snapshot path when present, and by fsmRestore); 2 = with bb0a5c5 as well (the full-snapshot
+path always keeps a full snapshot required until one is installed); 3 = with the requirement tokens
+(installing a full snapshot captured before a load no longer clears the requirement the load raised).
 -/
 import RqModel.Model.Util
 namespace RqModel.SnapSM
@@ -59,7 +64,7 @@ deriving DecidableEq, Repr
 /-- a snapshot captured by FSM.Snapshot() and not yet persisted: what it holds, and how many
 database-changing entries / commands the log had after the newest snapshot at that moment -/
 inductive Pend where
-  | full (c : C) (n cm : Nat)
+  | full (c : C) (n cm : Nat) (g : Nat)
   | inc (n cm : Nat)
 deriving DecidableEq, Repr
 
@@ -73,6 +78,8 @@ structure SM where
   /-- the snapshot store, oldest first -/
   snaps : List Snap := []
   fullNeeded : Bool := false
+  /-- number of full-snapshot requirements raised so far (identifies the one in force) -/
+  gen : Nat := 0
   /-- dbModified(): the database file changed after the time recorded by fsmSnapshot/fsmRestore -/
   modified : Bool := false
   pend : Option Pend := none
@@ -80,8 +87,9 @@ structure SM where
   tail : List Entry := []
   /-- command entries (writes, loads, no-ops) in the log after the newest snapshot -/
   cmds : Nat := 0
-  /-- raft's FSM goroutine has applied a command since the process started (otherwise a
-  user-requested snapshot answers "nothing new to snapshot") -/
+  /-- raft's FSM goroutine has processed a log entry since the process started (otherwise a
+  user-requested snapshot answers "nothing new to snapshot"); after a restart the correspondence
+  run issues a raft Barrier to wait for the replay, which counts -/
   applied : Bool := true
 deriving DecidableEq, Repr
 
@@ -147,23 +155,25 @@ def snapBegin (lvl : Nat) (s : SM) : SM × String :=
   if s.pend.isSome then (s, "busy")
   else if fullDue s then
     let s :=
-      if lvl ≥ 2 then { s with staged := [], fullNeeded := true }
-      else if lvl = 1 && !s.staged.isEmpty then { s with staged := [], fullNeeded := true }
+      if lvl ≥ 2 then { s with staged := [], fullNeeded := true, gen := s.gen + 1 }
+      else if lvl = 1 && !s.staged.isEmpty then { s with staged := [], fullNeeded := true, gen := s.gen + 1 }
       else s
-    ({ s with file := s.db, modified := false, pend := some (.full s.db s.tail.length s.cmds) }, "full")
+    ({ s with file := s.db, modified := false, pend := some (.full s.db s.tail.length s.cmds s.gen) }, "full")
   else if s.db = s.file then (s, "nowal")
   else
     ({ s with staged := s.staged ++ [⟨s.file, s.db⟩], file := s.db,
               pend := some (.inc s.tail.length s.cmds) }, "incremental")
 
 /-- Persist + sink.Close, or Release -/
-def snapEnd (s : SM) (o : Outcome) : SM × String :=
+def snapEnd (lvl : Nat) (s : SM) (o : Outcome) : SM × String :=
   match s.pend with
   | none => (s, "nopending")
-  | some (.full c n cm) =>
+  | some (.full c n cm g) =>
     match o with
     | .ok =>
-      ({ s with snaps := s.snaps ++ [.full c], fullNeeded := false, tail := s.tail.drop n, cmds := s.cmds - cm,
+      -- the sink clears the requirement (from level 3 on: only the one in force at capture time)
+      let fn := if lvl ≥ 3 then (if s.gen = g then false else s.fullNeeded) else false
+      ({ s with snaps := s.snaps ++ [.full c], fullNeeded := fn, tail := s.tail.drop n, cmds := s.cmds - cm,
                 pend := none }, "installed")
     | _ => ({ s with pend := none }, "not-installed")
   | some (.inc n cm) =>
@@ -176,7 +186,7 @@ def snapEnd (s : SM) (o : Outcome) : SM × String :=
                   pend := none }, "installed")
     | .notInvoked => ({ s with pend := none }, "not-installed")
     | .failBefore => ({ s with pend := none }, "not-installed")
-    | .failAfter => ({ s with staged := [], fullNeeded := true, pend := none }, "not-installed")
+    | .failAfter => ({ s with staged := [], fullNeeded := true, gen := s.gen + 1, pend := none }, "not-installed")
 
 /-- a snapshot taken through raft, both steps back to back -/
 def snapshot (lvl : Nat) (s : SM) (o : Outcome) : SM × String :=
@@ -184,7 +194,7 @@ def snapshot (lvl : Nat) (s : SM) (o : Outcome) : SM × String :=
   else
     let (s1, k) := snapBegin lvl s
     if k = "full" || k = "incremental" then
-      let (s2, r) := snapEnd s1 o
+      let (s2, r) := snapEnd lvl s1 o
       (s2, if r = "installed" then k else k ++ "-not-installed")
     else (s1, k)
 
@@ -193,17 +203,17 @@ def step (lvl : Nat) (s : SM) : Op → SM × String
     ({ s with db := s.db ++ [w], tail := s.tail ++ [.write w], cmds := s.cmds + 1, applied := true }, "ok")
   | .noop => ({ s with cmds := s.cmds + 1, applied := true }, "ok")
   | .snapBegin => snapBegin lvl s
-  | .snapEnd o => snapEnd s o
+  | .snapEnd o => snapEnd lvl s o
   | .snapshot o => snapshot lvl s o
   | .load c =>
     -- the swap gives the database file a new modification time
-    ({ s with db := c, file := c, fullNeeded := true, modified := true, tail := s.tail ++ [.load c],
+    ({ s with db := c, file := c, fullNeeded := true, gen := s.gen + 1, modified := true, tail := s.tail ++ [.load c],
               cmds := s.cmds + 1, applied := true }, "ok")
   | .boot c =>
     if s.pend.isSome then (s, "busy")
     else
       -- noop entry, swap, SetDueNext(Full), Snapshot (full, installed)
-      let s := { s with db := c, file := c, fullNeeded := true, modified := true, cmds := s.cmds + 1, applied := true }
+      let s := { s with db := c, file := c, fullNeeded := true, gen := s.gen + 1, modified := true, cmds := s.cmds + 1, applied := true }
       ((snapshot lvl s .ok).1, "ok")
   | .install c =>
     if s.pend.isSome then (s, "busy")
@@ -220,8 +230,8 @@ def step (lvl : Nat) (s : SM) : Op → SM × String
     -- (replaying a LOAD sets FULL_NEEDED again); the recorded modification time starts afresh
     match resolve s.snaps, replay (resolve s.snaps) s.tail with
     | some r, some c =>
-      ({ s with db := c, file := fileAfter r s.tail, staged := [], pend := none, applied := decide (s.cmds > 0),
-                modified := false, fullNeeded := s.fullNeeded || hasLoad s.tail }, "ok")
+      ({ s with db := c, file := fileAfter r s.tail, staged := [], pend := none, applied := true,
+                modified := false, fullNeeded := s.fullNeeded || hasLoad s.tail, gen := s.gen + 1 }, "ok")
     | _, _ => (s, "corrupt")
 
 def run (lvl : Nat) (s : SM) (ops : List Op) : SM := ops.foldl (fun s o => (step lvl s o).1) s
